@@ -287,7 +287,7 @@ end hkey
 
 /-- the parameters of the generated code instantiated with the model: element sizes by `o`, thresholds of `T`, the
     model's error classes, the model's `Ctx` as slab storage (an empty heap: `Retrieve` finds nothing) -/
-def envM {α : Type} (o : ElemsOps α) (T L : Nat) : Env (MElemF α) Unit Unit Unit Ctx GE where
+def envMap {α : Type} (o : ElemsOps α) (T L : Nat) : Env (MElemF α) Unit Unit Unit Ctx GE where
   Digester_Levels := u64 L
   MapSlab_CanLendToLeft := fun _ _ => false
   MapSlab_CanLendToRight := fun _ _ => false
@@ -313,7 +313,7 @@ def envM {α : Type} (o : ElemsOps α) (T L : Nat) : Env (MElemF α) Unit Unit U
   newSingleElement := fun c _ _ _ => ({ key := none, value := none }, none, c)
   wrapErrorfAsExternalErrorIfNeeded := id
 
-theorem envM_EnvH {α : Type} (o : ElemsOps α) (T L : Nat) : EnvH o T (envM o T L) where
+theorem envMap_EnvH {α : Type} (o : ElemsOps α) (T L : Nat) : EnvH o T (envMap o T L) where
   size := fun _ => rfl
   minThr := rfl
   eMerge := rfl
@@ -322,7 +322,7 @@ theorem envM_EnvH {α : Type} (o : ElemsOps α) (T L : Nat) : EnvH o T (envM o T
   eSplit := rfl
   eNotApplicable := rfl
 
-theorem envM_EnvS {α : Type} (o : ElemsOps α) (T L : Nat) : EnvS (envM o T L) where
+theorem envMap_EnvS {α : Type} (o : ElemsOps α) (T L : Nat) : EnvS (envMap o T L) where
   gen := fun _ _ => rfl
   store := fun _ _ _ => rfl
   remove := fun _ _ => rfl
@@ -340,36 +340,36 @@ private def msl_gR : HkeyElems SingleElems :=
   { hkeys := [20], elems := [msl_el 20 4], size := 36, level := 0 }
 
 /-- Split of the three-element group: digests and elements `[5, 9] | [12]`, sizes 74 and 56 -/
-example : hkeyElements_Split (envM msl_o0 256 4) (cH msl_gEx) =
+example : hkeyElements_Split (envMap msl_o0 256 4) (cH msl_gEx) =
     some (.hkey (cH { hkeys := [5, 9], elems := [msl_el 20 1, msl_el 30 2], size := 74, level := 0 }),
           .hkey (cH { hkeys := [12], elems := [msl_el 40 3], size := 56, level := 0 }), none,
           cH { hkeys := [5, 9], elems := [msl_el 20 1, msl_el 30 2], size := 74, level := 0 }) := by
-  rw [hkeyElements_Split_full_eq_model msl_o0 256 _ (envM_EnvH msl_o0 256 4) msl_gEx (by decide) (by decide) (by decide)]; rfl
+  rw [hkeyElements_Split_full_eq_model msl_o0 256 _ (envMap_EnvH msl_o0 256 4) msl_gEx (by decide) (by decide) (by decide)]; rfl
 
 /-- Merge with the one-element group: four digests, size 122 + 36 - 8 -/
-example : hkeyElements_Merge (envM msl_o0 256 4) (cH msl_gEx) (.hkey (cH msl_gR)) =
+example : hkeyElements_Merge (envMap msl_o0 256 4) (cH msl_gEx) (.hkey (cH msl_gR)) =
     some (none, cH { hkeys := [5, 9, 12, 20], elems := [msl_el 20 1, msl_el 30 2, msl_el 40 3, msl_el 20 4], size := 150, level := 0 }) := by
   rw [hkeyElements_Merge_full_eq_model _ msl_gEx msl_gR (by decide) (by decide)]; rfl
 
 /-- LendToRight to the one-element group (T = 256: the right group must reach minThreshold - 18 - 8 = 102 bytes): the
     last TWO elements and their digests move -/
-example : hkeyElements_LendToRight (envM msl_o0 256 4) (cH msl_gEx) (.hkey (cH msl_gR)) =
+example : hkeyElements_LendToRight (envMap msl_o0 256 4) (cH msl_gEx) (.hkey (cH msl_gR)) =
     some (none, cH { hkeys := [5], elems := [msl_el 20 1], size := 36, level := 0 },
           .hkey (cH { hkeys := [9, 12, 20], elems := [msl_el 30 2, msl_el 40 3, msl_el 20 4], size := 122, level := 0 })) := by
-  rw [hkeyElements_LendToRight_full_eq_model msl_o0 256 _ (envM_EnvH msl_o0 256 4) msl_gEx msl_gR (by decide) (by decide) (by decide)
+  rw [hkeyElements_LendToRight_full_eq_model msl_o0 256 _ (envMap_EnvH msl_o0 256 4) msl_gEx msl_gR (by decide) (by decide) (by decide)
     (by decide) (by decide) (by decide) (by decide) (by decide)]; rfl
 
 /-- BorrowFromRight in the other direction -/
-example : hkeyElements_BorrowFromRight (envM msl_o0 256 4) (cH msl_gR) (.hkey (cH msl_gEx)) =
+example : hkeyElements_BorrowFromRight (envMap msl_o0 256 4) (cH msl_gR) (.hkey (cH msl_gEx)) =
     some (none, cH { hkeys := [20, 5], elems := [msl_el 20 4, msl_el 20 1], size := 64, level := 0 },
           .hkey (cH { hkeys := [9, 12], elems := [msl_el 30 2, msl_el 40 3], size := 94, level := 0 })) := by
-  rw [hkeyElements_BorrowFromRight_full_eq_model msl_o0 256 _ (envM_EnvH msl_o0 256 4) msl_gR msl_gEx (by decide) (by decide) (by decide)
+  rw [hkeyElements_BorrowFromRight_full_eq_model msl_o0 256 _ (envMap_EnvH msl_o0 256 4) msl_gR msl_gEx (by decide) (by decide) (by decide)
     (by decide) (by decide) (by decide) (by decide) (by decide)]; rfl
 
 /-- different levels: the rebalance error, both groups untouched -/
-example : hkeyElements_LendToRight (envM msl_o0 256 4) (cH msl_gEx) (.hkey (cH { msl_gR with level := 1 })) =
+example : hkeyElements_LendToRight (envMap msl_o0 256 4) (cH msl_gEx) (.hkey (cH { msl_gR with level := 1 })) =
     some (some .slabRebalance, cH msl_gEx, .hkey (cH { msl_gR with level := 1 })) := by
-  rw [hkeyElements_LendToRight_full_eq_model msl_o0 256 _ (envM_EnvH msl_o0 256 4) msl_gEx { msl_gR with level := 1 } (by decide) (by decide)
+  rw [hkeyElements_LendToRight_full_eq_model msl_o0 256 _ (envMap_EnvH msl_o0 256 4) msl_gEx { msl_gR with level := 1 } (by decide) (by decide)
     (by decide) (by decide) (by decide) (by decide) (by decide) (by decide)]; rfl
 
 end examples
